@@ -166,6 +166,7 @@ class Case:
     except BaseException as e:  # pylint: disable=broad-except
       obs['status'] = ('ImportError' if isinstance(e, ImportError) else type(e).__name__)
       obs['msg'] = str(e)[:300]
+      obs['fullmsg'] = str(e)
     obs['cfg'] = self.bindings()
     return obs
 
@@ -189,6 +190,12 @@ def check(case):
     obs = c.run(case)
     if obs['status'] != case['status']:
       return ('status', case['status'], obs['status'] + ': ' + obs.get('msg', ''))
+    if case['status'] not in ('ok', 'SyntaxError') and case.get('at'):
+      # the error says where: statement k of the file sits on line k + 1 (after the enabling line)
+      import re
+      where = [int(n) for n in re.findall(r'line (\d+)', obs.get('fullmsg', ''))]
+      if where != [case['at'] + 1]:
+        return ('error-location', [case['at'] + 1], [where, obs.get('fullmsg', '')[:300]])
     want = sorted([b['obj'], b['param'], b['val']] for b in case['cfg'])
     if want != obs['cfg']:
       return ('configured-objects', want, obs['cfg'])
